@@ -170,6 +170,8 @@ class C15(Property):
         else:
             strat = {"kind": "sweep", "at": rng.randrange(1, 600), "to": f"T{rng.randrange(nthreads)}"}
         case = {"scenario": scenario, "nthreads": nthreads, "granularity": gran, "strategy": strat, "sched_seed": rng.getrandbits(48)}
+        if rng.random() < (0.008 if tier == "quick" else 0.04):
+            case["systematic"] = True  # every depth-1 pre-emption (up to a stride) instead of one sampled schedule
         getattr(self, "_gen_" + scenario)(rng, case)
         return case
 
@@ -195,6 +197,10 @@ class C15(Property):
             case["scripts"][f"T{i}"] = {"before": rng.randint(0, 2), "after": gen_script(rng, names, budget=[rng.randint(0, 3)])}
 
     def _gen_register(self, rng, case):
+        # a lost update needs two writers, and a pre-emption between the read and the write of the table
+        case["nthreads"] = 3
+        if rng.random() < 0.8:
+            case["granularity"] = "shared"
         aliases = ["a", "b", "c", "d", "e"]
         regs = {}
         for i in range(case["nthreads"] - 1):
@@ -230,6 +236,36 @@ class C15(Property):
 
     # ------------------------------------------------------------------ execution
     def run_case(self, case):
+        if case.get("systematic") and "schedule" not in case:
+            return self._run_systematic(case)
+        return self._run_once(case)
+
+    def _run_systematic(self, case):
+        """Depth-1 systematic sweep: a run without pre-emption gives the number N of yield points of the first thread's
+        solo prefix; then one run per (yield index i, other thread j): pre-empt at i to j, run to completion otherwise."""
+        base = self._run_once(dict(case, strategy={"kind": "sweep", "at": -1, "to": "T0"}))
+        if base.violations:
+            return base
+        n = min(base.stats.get("yield_points", 0), 300)
+        stride = max(1, n // 60)
+        total = base
+        for at in range(1, n, stride):
+            for j in range(case["nthreads"]):
+                r = self._run_once(dict(case, strategy={"kind": "sweep", "at": at, "to": f"T{j}"}))
+                for k, v in r.stats.items():
+                    total.stats[k] = total.stats.get(k, 0) + v
+                for k, v in r.faults.items():
+                    total.faults[k] = total.faults.get(k, 0) + v
+                for k, v in r.distinct.items():
+                    total.distinct.setdefault(k, []).extend(v)
+                if r.violations:
+                    total.violations = r.violations
+                    total.digest = r.digest
+                    return total
+        total.bump("systematic_depth1_sweeps")
+        return total
+
+    def _run_once(self, case):
         res = Result()
         rng = random.Random(case["sched_seed"])
         sched = Scheduler(rng, case["strategy"], case["granularity"], schedule=case.get("schedule"))
